@@ -382,7 +382,7 @@ def run(ctx):
         ctx.info.append("%d further failing cases of the same kinds are not listed" % ctx.suppressed)
     if early:
         ctx.info.append("%d cases returned earlier than the model's logical duration (not an alarm)" % early)
-    have_bin = os.path.exists(os.path.join(verif.ROOT, "harness", "bin", "c09"))
+    have_bin = os.path.exists(os.path.join(verif.HBIN, "c09"))
     if have_bin and (not quick or (ctx.broken and not ctx.findings)):
         # interleaving-dependent cancellation failures: swept cancel-right-after-connect (thorough: always)
         r = race_sweep(ctx, 400 if quick else 1200)
